@@ -108,32 +108,31 @@ theorem states_puso (cfg : Cfg ρ α) (H : Obj) (P : Params ρ α) (rs : List Re
     refine ⟨hsp, by rw [hst]; exact relabelState_vals _ _ hg.2, N, model, rev, hd, ?_⟩
     rw [hst, relabelState_fst, hg.1]
 
-/-- Matrix input (`QUSOMatrix`): the state assigns a value to every index `0..max_index`; for a Matrix
-without variables (`max_index is None`, e.g. `QUSOMatrix({(): 5})`) the state is empty. -/
+/-- Matrix input of `anneal_quso` (`QUSOMatrix`, or `PUSOMatrix`, which is turned into `QUSOMatrix(L)` first:
+"a Matrix input stays a Matrix input"): the state assigns a value to every index `0..max_index` of that
+Matrix object `M`; for a Matrix without variables (`max_index is None`) the state is empty. -/
 theorem domain_matrix_quso (cfg : Cfg ρ α) (L : Obj) (P : Params ρ α) (rs : List Res)
-    (hk : L.kind = .qusom) (h : annealQuso cfg L P = .ok rs)
+    (hk : L.kind = .qusom ∨ L.kind = .pusom) (h : annealQuso cfg L P = .ok rs)
     (hinit : ∀ d, P.init = some d → ∀ p ∈ d, p.2 = 1 ∨ p.2 = -1) :
-    ∀ r ∈ rs, r.state.map Prod.fst = List.range (L.maxIndex.elim 0 (· + 1)) := by
+    ∀ r ∈ rs, ∃ M : Obj,
+      ((L.kind = .qusom ∧ M = L) ∨ (L.kind = .pusom ∧ Obj.build .qusom L.terms = .ok M)) ∧
+      r.state.map Prod.fst = List.range (M.maxIndex.elim 0 (· + 1)) := by
   intro r hr
   obtain ⟨_, _, N, model, rev, hd, hst⟩ := states_quso cfg L P rs h hinit r hr
-  have hd' : N = L.maxIndex.elim 0 (· + 1) ∧ rev = List.range N := by
-    cases hm : L.maxIndex with
-    | none =>
-      simp only [dispatchQuso, hk, if_true, hm, pure, Except.pure, bind, Except.bind] at hd
-      injection hd with hd
-      injection hd with h1 h2; injection h2 with h2 h3
-      subst h1; subst h3; exact ⟨rfl, rfl⟩
-    | some m =>
-      simp only [dispatchQuso, hk, if_true, hm, pure, Except.pure, bind, Except.bind] at hd
-      injection hd with hd
-      injection hd with h1 h2; injection h2 with h2 h3
-      subst h1; subst h3; exact ⟨rfl, rfl⟩
-  obtain ⟨hN, hrev⟩ := hd'
-  rw [hst, hrev, ← hN]
-  apply List.ext_getElem (by simp)
-  intro i h1 h2
-  simp only [List.length_map, List.length_range] at h1
-  simp [List.getD, List.getElem?_range h1]
+  have key : ∀ M : Obj, M.kind = .qusom → dispatchQusoCore M = .ok (N, model, rev) →
+      r.state.map Prod.fst = List.range (M.maxIndex.elim 0 (· + 1)) := by
+    intro M hM hc
+    obtain ⟨_, hrev, hN⟩ := dispatchCore_matrix M hM N model rev hc
+    rw [hst, hrev, ← hN]
+    apply List.ext_getElem (by simp)
+    intro i h1 h2
+    simp only [List.length_map, List.length_range] at h1
+    simp [List.getD, List.getElem?_range h1]
+  rcases hk with hk | hk
+  · rw [dispatchQuso_not_pusom L (by rw [hk]; decide)] at hd
+    exact ⟨L, Or.inl ⟨hk, rfl⟩, key L hk hd⟩
+  · obtain ⟨M, hb, hc⟩ := dispatch_pusom_quso L hk N model rev hd
+    exact ⟨M, Or.inr ⟨hk, hb⟩, key M (build_inv .qusom L.terms M hb).2 hc⟩
 
 /-- A `QUSOMatrix` without variables (`QUSOMatrix({(): 5})`, `QUSOMatrix()`): `num_anneals` results with
 empty state whose value is the offset (the `N == 0` shortcut; formerly a `TypeError`, DESIGN.md §10 D4). -/
@@ -142,7 +141,7 @@ theorem empty_matrix_quso (cfg : Cfg ρ α) (L : Obj) (P : Params ρ α) (Ts : L
     (hs : createSchedule P.schedule = .ok Ts) :
     annealQuso cfg L P = .ok (List.replicate P.numAnneals.toNat ⟨[], get L.terms [], true⟩) := by
   have : ¬ P.numAnneals ≤ 0 := by omega
-  simp [Anneal.annealQuso, prep, this, hs, dispatchQuso, hk, hm, bind, Except.bind, pure, Except.pure,
+  simp [Anneal.annealQuso, prep, this, hs, dispatchQuso, dispatchQusoCore, hk, hm, bind, Except.bind, pure, Except.pure,
     emptyResults]
 
 /-- Boolean functions: `spin = False`, values in `{0,1}`, and the labels are those of the spin result
@@ -324,6 +323,38 @@ theorem value_puso_built (src : Src ρ Rat) (κ : Kind)
   · intro r hr
     exact (annealPuso_labelled src H P rs (Or.inr (Or.inr hk)) h (hI.map_len (by rw [hk]; rfl)) hinit r hr).2.2
 
+/-- **Every other input of `anneal_quso`** — `PUSOMatrix` (turned into `QUSOMatrix(L)`), dict, `PUSO`, `PCSO`
+(turned into `QUSO(L)`), with arbitrary raw keys: the value is the input's own terms evaluated at every spin
+assignment of its labels that agrees with the state. -/
+theorem value_quso_rebuilt (src : Src ρ Rat) (L : Obj) (P : Params ρ Rat) (rs : List Res)
+    (hk : L.kind ≠ .qusom ∧ L.kind ≠ .quso) (h : annealQuso (ratCfg src) L P = .ok rs)
+    (hinit : ∀ d, P.init = some d → ∀ p ∈ d, p.2 = 1 ∨ p.2 = -1) :
+    ∀ r ∈ rs, ∀ x : Var → Rat, IsSpin x → (∀ p ∈ r.state, x p.1 = p.2) → r.value = eval x L.terms := by
+  intro r hr x hx hcons
+  obtain ⟨_, _, N, model, rev, hd, _⟩ := states_quso (ratCfg src) L P rs h hinit r hr
+  obtain ⟨M, hb, e⟩ := annealQuso_rebuilt (ratCfg src) L P hk N model rev hd
+  rw [e] at h
+  by_cases hp : L.kind = .pusom
+  · rw [if_pos hp] at hb
+    rw [value_quso_built src .qusom (Or.inl rfl) L.terms M hb P rs h hinit r hr x hcons,
+      build_eval_spin .qusom rfl L.terms M hb x hx]
+  · rw [if_neg hp] at hb
+    rw [value_quso_built src .quso (Or.inr rfl) L.terms M hb P rs h hinit r hr x hcons,
+      build_eval_spin .quso rfl L.terms M hb x hx]
+
+/-- **A dict (or any non-spin-type input) through `anneal_puso`** (turned into `PUSO(H)`). -/
+theorem value_puso_rebuilt (src : Src ρ Rat) (H : Obj) (P : Params ρ Rat) (rs : List Res)
+    (hk : ¬ (H.kind = .qusom ∨ H.kind = .pusom) ∧ ¬ (H.kind = .quso ∨ H.kind = .puso ∨ H.kind = .pcso))
+    (h : annealPuso (ratCfg src) H P = .ok rs)
+    (hinit : ∀ d, P.init = some d → ∀ p ∈ d, p.2 = 1 ∨ p.2 = -1) :
+    ∀ r ∈ rs, ∀ x : Var → Rat, IsSpin x → (∀ p ∈ r.state, x p.1 = p.2) → r.value = eval x H.terms := by
+  intro r hr x hx hcons
+  obtain ⟨_, _, N, model, rev, hd, _⟩ := states_puso (ratCfg src) H P rs h hinit r hr
+  obtain ⟨M, hb, e⟩ := annealPuso_rebuilt (ratCfg src) H P hk N model rev hd
+  rw [e] at h
+  rw [value_puso_built src .puso (Or.inr (Or.inr (Or.inr (Or.inl rfl)))) H.terms M hb P rs h hinit r hr x hcons,
+    build_eval_spin .puso rfl H.terms M hb x hx]
+
 /-- **`anneal_qubo`: every result's value is the boolean input model evaluated at the result's boolean
 state, offset included** — for every input type (dict with raw keys, `QUBO`, `QUBOMatrix`, …), every
 source, schedule, visiting order, initial state.  Composition of `qubo_to_quso` (C04 T4.3 `Qv.C04.qubo_to_quso_value`, i.e. `eval_quboToQuso`), the spin
@@ -466,6 +497,21 @@ example : IsBool (fun i => if i = 1 then 1 else 0) ∧
   intro p hp
   simp only [List.mem_cons, List.mem_nil_iff, or_false] at hp
   rcases hp with rfl | rfl <;> simp
+
+/-- `anneal_quso(PUSOMatrix({(0,2): 1}))`: turned into `QUSOMatrix`, the states cover 0, 1, 2 (index 1 occurs in no
+term); a `PUSO` with a quadratic key and a dict go through `QUSO(L)` -/
+example : (Anneal.annealQuso (ratCfg Ex.src) { kind := .pusom, terms := [([0, 2], 1)], vars := [0, 2] }
+    (Ex.P true none)).toOption.map (fun rs => rs.map (fun r => r.state.map Prod.fst)) = some [[0, 1, 2], [0, 1, 2]] := by
+  decide +kernel
+example : (Obj.build .qusom [([0, 2], (1 : Rat))]).toOption.map (fun M => M.maxIndex) = some (some 2) := by
+  decide +kernel
+example : (Anneal.annealQuso (ratCfg Ex.src)
+    ({ kind := .puso, terms := [([5, 9], 1), ([9], -2)], vars := [5, 9], mapping := [5, 9] } : Obj)
+    (Ex.P true none)).toOption.map (fun rs => rs.map (fun r => r.state.map Prod.fst))
+    = some [[5, 9], [5, 9]] := by decide +kernel
+/-- a cubic key in a `PUSOMatrix` makes `anneal_quso` raise (`KeyError`) -/
+example : (Anneal.annealQuso (ratCfg Ex.src) { kind := .pusom, terms := [([0, 1, 2], 1)], vars := [0, 1, 2] }
+    (Ex.P true none)).toOption.isSome = false := by decide +kernel
 
 /-- `best` of a three-element list with a tie -/
 example : (best [⟨[], 2, true⟩, ⟨[(0, 1)], 1, true⟩, ⟨[(0, -1)], 1, true⟩]).map (·.value) = some 1 := by
